@@ -142,3 +142,15 @@ PROPS["C08"] = {
         {"bin": "c08", "quick": {"cases": 4000, "workers": 16, "budget": 200}, "thorough": {"cases": 30000, "workers": 16, "budget": 1500}},
     ],
 }
+
+PROPS["C09"] = {
+    "level": "exploration",
+    "rule": "rapidcheck-generated histories (1-25 calls) on handles in mode {read, write, rdwr} over 12 representative formats (one per wrapper family incl. block codecs and non-seekable ones): valid reads/writes/seeks/commands/set_string mixed with each invalid class - wrong-mode read/write, item count not divisible by channels, negative count, unknown whence, whence with the wrong mode bits, out-of-range and negative seek, unknown command id, NULL data, set_string on a read handle / NULL / unknown type, set_chunk NULL / on a format without chunks, and 10 failing sf_open variants (bad mode, NULL SF_INFO, zero major/minor, unknown format, missing file, empty file, directory, VIO table without read, garbage content); "
+            "plus the whole sf_error_number table 0..SFE_MAX_ERROR; non-trivial = a history with at least one invalid call followed by a valid one; distinct = hash of (format, mode, ops)",
+    "assumptions": BASE_ASSUME + ["where an error is 'recorded' follows each call's documentation: sf_error(handle) for read/write/seek, the return value for sf_set_string / sf_set_chunk / sf_command(GET_CURRENT_SF_INFO), sf_error(NULL) for sf_open",
+                                  "zero-length reads/writes are not generated (they return before the error is cleared; the statement does not classify them)",
+                                  "LeakSanitizer's recoverable check runs every 64th history (C16 owns leaks)"],
+    "stages": [
+        {"bin": "c09", "quick": {"cases": 8000, "workers": 16, "budget": 200}, "thorough": {"cases": 60000, "workers": 16, "budget": 1500}},
+    ],
+}
